@@ -36,6 +36,7 @@ static uint32_t g_cells[2] = {111, 222};
 template<> struct Vals<uint32_t *> { static uint32_t *get(int i) { return &g_cells[i]; } static const char *name() { return "ptr"; } };
 template<> struct Vals<uint8_t> { static uint8_t get(int i) { return i ? uint8_t(254) : uint8_t(0); } static const char *name() { return "u8"; } };   // 254 is next to the reserved 255
 template<> struct Vals<double> { static double get(int i) { return i ? std::numeric_limits<double>::lowest() : 0.5; } static const char *name() { return "f64"; } };
+template<> struct Vals<float> { static float get(int i) { return i ? -std::numeric_limits<float>::infinity() : std::numeric_limits<float>::infinity(); } static const char *name() { return "f32"; } };   // both infinities are ordinary values: only numeric_limits::max() is reserved
 template<> struct Vals<std::string> { static std::string get(int i) { return i ? "b" : "a"; } static const char *name() { return "str"; } };
 
 struct DynCfg { uint8_t base, buffer_level, index_level; };
@@ -585,7 +586,8 @@ static std::vector<TypeEntry> types() {
         TYPE("u32/u64/pgm<1,1>", 3, uint32_t, uint64_t, pgm::PGMIndex<uint32_t, 1, 1>),
         TYPE("i32/i32/pgm<1,1>", 3, int32_t, int32_t, pgm::PGMIndex<int32_t, 1, 1>),
         TYPE("u16/u8/pgm<1,1>", 3, uint16_t, uint8_t, pgm::PGMIndex<uint16_t, 1, 1>),      // tier 3: one BFS from empty, one round-structured search, the large scripted family
-        TYPE("i64/f64/pgm<2,1>", 3, int64_t, double, pgm::PGMIndex<int64_t, 2, 1>),   // tier 2: large scripted family only (Epsilon < EpsilonRecursive)
+        TYPE("i64/f64/pgm<2,1>", 3, int64_t, double, pgm::PGMIndex<int64_t, 2, 1>),
+        TYPE("u32/f32/pgm<1,1>", 3, uint32_t, float, pgm::PGMIndex<uint32_t, 1, 1>),   // mapped values +inf / -inf   // tier 2: large scripted family only (Epsilon < EpsilonRecursive)
     };
 }
 
